@@ -33,6 +33,14 @@ func runC04(c *Ctx, tier string) {
 	// Configure() value to Configure/deserializeConfigInto on every path (no
 	// shortcut that skips resolving higher-scoped references) — C11's tables
 	c11Deserialise(c, r)
+	// premise of every per-lint rule of this property: the verdict is computed on the
+	// object as parsed and on immutable tables — no lint method (any lint may run
+	// earlier in the same pass) writes memory reachable from the linted object or a
+	// package-level variable (C05 rules 1-2)
+	{
+		csP := BuildCensus(c)
+		c05Effects(c, r, csP, NewEffects(c))
+	}
 	r.Finish()
 }
 
